@@ -22,8 +22,8 @@ Proof. vm_compute. reflexivity. Qed.
 (* every item that influences an operation is a field of the state record:
    5 roles (counter, parser context, context-local, keyed cache, reset before use) *)
 Example C18_inventory_fields :
-  length (filter (fun i => role_has_field (i_role i)) modelled_items) = 12
-  /\ length modelled_items = 89.
+  length (filter (fun i => role_has_field (i_role i)) modelled_items) = 13
+  /\ length modelled_items = 90.
 Proof. vm_compute. split; reflexivity. Qed.
 
 Section C18.
@@ -88,19 +88,21 @@ Theorem C18_cache_keyed : forall h,
 Proof. exact (cache_keyed V FC RX MRX walk_fn res_fn dtd_fn fc_compute fc_query rx_compile
                           rx_match mm_empty m_compile m_match). Qed.
 
-(* the junk ids an operation hands out are exactly Junk.junkid + 1 ...: the
-   keyed lists it sees are those of [kents_many] from the counter's value *)
+(* the junk ids an operation hands out continue the counter of its parser's
+   Junk class ([eff]: Junk.junkid, or XMLJunk's own copy for strings.xml): the
+   keyed lists it sees are those of [kents_many] from that value, the counter
+   advances by the number of Junk constructions, and no two of the keys collide *)
 Theorem C18_junk_ids : forall st v,
   let p := parse_many FC RX MRX walk_fn st (vop_fmt v) (vop_texts v) in
   map (map (resolve (g_heap (fst p)))) (snd p) =
-    kents_many walk_fn (g_junkid st) (vop_fmt v) (vop_texts v) /\
-  g_junkid (fst p) = g_junkid st + total_cons walk_fn (vop_fmt v) (vop_texts v) /\
+    kents_many walk_fn (eff st (vop_fmt v)) (vop_fmt v) (vop_texts v) /\
+  eff (fst p) (vop_fmt v) = eff st (vop_fmt v) + total_cons walk_fn (vop_fmt v) (vop_texts v) /\
   (Forall (no_junklike_text walk_fn (vop_fmt v)) (vop_texts v) ->
-   coll_free (concat (kents_many walk_fn (g_junkid st) (vop_fmt v) (vop_texts v)))).
+   coll_free (concat (kents_many walk_fn (eff st (vop_fmt v)) (vop_fmt v) (vop_texts v)))).
 Proof.
   intros st v p. split; [apply parse_many_resolve|]. split; [apply parse_many_junkid|].
   exact (coll_free_kents_many V FC RX MRX walk_fn fc_compute fc_query rx_compile rx_match
-                              m_compile m_match (vop_texts v) (g_junkid st) (vop_fmt v)).
+                              m_compile m_match (vop_texts v) (eff st (vop_fmt v)) (vop_fmt v)).
 Qed.
 
 End C18.
